@@ -571,6 +571,37 @@ func genLong(r *vh.Rand) string {
 		r.PickInt([]int{0, 2000}), n, strings.Join(es, " "), opts)
 }
 
+// genOverload: engine mode, discard_overflow on, a pool that falls >= 2 s behind its schedule: a burst of tokens at
+// t = 0, then a constant rate for a fraction of a second, while the first answer to each instance takes 2.1-2.3 s.
+// The instances discard what is >= 2 s overdue and shoot the rest. More entries than the provider's read-ahead
+// (128), so the entries shot after the discards are decoded into ammo objects released during the discards.
+func genOverload(r *vh.Rand) string {
+	ninst := r.Range(1, 3)
+	burst := r.Range(30, 90)
+	rps := r.PickInt([]int{200, 300, 400})
+	ms := r.PickInt([]int{400, 500, 600})
+	if t := burst + rps*ms/1000; t < 150 {
+		burst += 150 - t
+	}
+	// a few tokens more than entries, or exactly as many (the run ends when the file is read); one case in four:
+	// fewer tokens than entries (the schedule ends first, the last entries are never acquired)
+	n := burst + rps*ms/1000 - r.Intn(10)
+	if r.Chance(1, 4) {
+		n = burst + rps*ms/1000 + r.Range(1, 12)
+	}
+	var es []string
+	for i := 0; i < n; i++ {
+		es = append(es, genEntry(r, fmt.Sprintf("t%d", i), len(methods)-1))
+	}
+	modeR := "e"
+	if r.Chance(1, 3) {
+		modeR += "r"
+	}
+	opts := genReflMeta(r) + fmt.Sprintf(" ov=%d.%d.%d.%d", burst, rps, ms, r.Range(2100, 2300))
+	return fmt.Sprintf("json %s %s %d %d %d %d %s%s", modeR, vh.B(r.Chance(1, 2)), r.Range(0, 3), ninst,
+		r.PickInt([]int{0, 5000, 40000}), n, strings.Join(es, " "), opts)
+}
+
 func gen(r *vh.Rand, tier string) []string {
 	n := 220
 	if tier == "thorough" {
@@ -590,6 +621,14 @@ func gen(r *vh.Rand, tier string) []string {
 	}
 	for i := 0; i < njt; i++ {
 		out = append(out, genJSONTimed(r))
+	}
+	// overload + discard_overflow (each case takes about 2.5 s of wall clock)
+	nov := 5
+	if tier == "thorough" {
+		nov = 16
+	}
+	for i := 0; i < nov; i++ {
+		out = append(out, genOverload(r))
 	}
 	for i := 0; i < n; i++ {
 		if i%5 < 3 {
